@@ -15,9 +15,10 @@ How it is stated here.
   (including the blank extension on a left move from the leftmost cell, fix 8f7542c), the
   queue loop observed through `n` calls of `next()` (`simStepwise`), next to the native run
   `MNTM.readStepwise` of C03.  Nothing assumes halting.
-* Spec: `encode hd sep tapes` — per tape its cells with the head mark right after the scanned
-  cell, then the separator (`encTape`); `stepTapes` is the native `write_symbol`/`move` on
-  every tape (`zip(moves, tapes)`, `TMTape` exactly as in C03).
+* Spec (`Spec/TMSim.lean`): `encode hd sep tapes` — per tape its cells with the head mark right
+  after the scanned cell, then the separator (`encTape`); `stepTapes` is the native
+  `write_symbol`/`move` on every tape (`zip(moves, tapes)`, `TMTape` exactly as in C03);
+  `GoodTape`/`GoodCfg` = representable (class invariant, machine's blank, no cell equal to a mark).
 * Domain (`SimDomain`): `validate = ok`, at least one tape, tape alphabet without the two
   marks, `'^' ≠ '_'`; the input must not contain the marks either (`Clean`) — the library
   never checks an input string against `input_symbols`.  The theorems hold for any number of
